@@ -570,7 +570,7 @@ func init() {
 			c.Correspondence("replay-dup/replay-clear/replay-sizes: pkg/replay ReplayCache (exported API) vs Mieru.Model.Replay with measured instants")
 			c.Correspondence("replay-ts-accept: pkg/protocol metadata Unmarshal timestamp rule vs Mieru.Replay.tsAccept")
 			c.Correspondence("replay-round: pkg/cipher saltFromTime vs Mieru.Replay.roundTo / keyAccept")
-			c.Note("TODO(integrator): protocol-level replays of recorded TCP connections / UDP datagrams need the in-memory network; not run here")
+			c.Note("protocol-level replays of recorded TCP connections / UDP datagrams run in the extra stage registered by c05.go")
 			var cases []c06Case
 			// corpus first
 			if files, _ := filepath.Glob(filepath.Join(c.Corpus, "*.json")); len(files) > 0 {
